@@ -121,8 +121,7 @@ def run_case(case):
                 sim, res, _, outs = _run(case, plan)
                 runs += 1
                 if not plan.get('done'):
-                    return Outcome(False, f'harness: crash plan {plan} never triggered (run not deterministic?)'
-                                   f'\ncase={case}', labels=labels)
+                    raise RuntimeError(f'crash plan {plan} never triggered: run is not a pure function of the case')
                 length = plan['frame_len']
                 if 0 < plan['cut_applied'] < length:
                     nt += 1
